@@ -1,6 +1,7 @@
 package gosym
 
 import (
+	"unsafe"
 	"fmt"
 	"go/types"
 	"strings"
@@ -357,4 +358,60 @@ func init() {
 	externals["hash/maphash.MakeSeed"] = func(fr *frame, args []value) value { return structure{uint64(1)} }
 	externals["hash/maphash.String"] = func(fr *frame, args []value) value { return uint64(0) }
 	externals["hash/maphash.Bytes"] = func(fr *frame, args []value) value { return uint64(0) }
+}
+
+// crypto/internal/fips140/alias compares the data pointers of two byte slices; slices are Go
+// slices of cells here, so the comparison is done on the cells' real addresses.
+func init() {
+	overlap := func(args []value) (any, inexact bool) {
+		x, _ := args[0].([]value)
+		y, _ := args[1].([]value)
+		if len(x) == 0 || len(y) == 0 {
+			return false, false
+		}
+		x0, x1 := uintptr(unsafe.Pointer(&x[0])), uintptr(unsafe.Pointer(&x[len(x)-1]))
+		y0, y1 := uintptr(unsafe.Pointer(&y[0])), uintptr(unsafe.Pointer(&y[len(y)-1]))
+		return x0 <= y1 && y0 <= x1, x0 == y0
+	}
+	for _, pkg := range []string{"crypto/internal/fips140/alias", "crypto/internal/alias", "golang.org/x/crypto/internal/alias"} {
+		externals[pkg+".AnyOverlap"] = func(fr *frame, args []value) value { a, _ := overlap(args); return a }
+		externals[pkg+".InexactOverlap"] = func(fr *frame, args []value) value {
+			a, same := overlap(args)
+			return a && !same
+		}
+	}
+}
+
+// crypto/internal/fips140/subtle.xorBytes (assembly): dst[i] = a[i] ^ b[i] over cells.
+func init() {
+	externals["crypto/internal/fips140/subtle.xorBytes"] = func(fr *frame, args []value) value {
+		dst, a, b := args[0].(*value), args[1].(*value), args[2].(*value)
+		n := int(asInt64(args[3]))
+		cell := func(p *value, i int) *value {
+			return (*value)(unsafe.Add(unsafe.Pointer(p), uintptr(i)*unsafe.Sizeof(value(nil))))
+		}
+		c := fr.i.ctx
+		for i := 0; i < n; i++ {
+			x, y := *cell(a, i), *cell(b, i)
+			xc, xok := x.(uint8)
+			yc, yok := y.(uint8)
+			var r value
+			if xok && yok {
+				r = xc ^ yc
+			} else {
+				xt, _ := fr.i.termOf(x)
+				yt, _ := fr.i.termOf(y)
+				r = c.BV(OpBVXor, xt, yt)
+			}
+			fr.i.store(types.Typ[types.Uint8], cell(dst, i), r)
+		}
+		return nil
+	}
+}
+
+// crypto/internal/fips140 service indicator (goroutine-local, runtime-linked): one cell.
+func init() {
+	var ind uint8
+	externals["crypto/internal/fips140.getIndicator"] = func(fr *frame, args []value) value { return ind }
+	externals["crypto/internal/fips140.setIndicator"] = func(fr *frame, args []value) value { ind = args[0].(uint8); return nil }
 }
